@@ -1,9 +1,16 @@
 (* C09 - Literal <-> Python value mapping is faithful, normalisation is idempotent.
-   Property theorems only; proofs are in Literal/{Proofs,Token,Decimal,Tie}.v.
-   Proved for every datatype of the model: the 13 integer datatypes, boolean, decimal, plain / xsd:string /
-   normalizedString / token, python int / bool / Decimal / str values, and pairs of literals (eq).
-   float/double, date/time/duration, binary and XML literals are conformance-only (harness/c09.py).
-   Open finding in the modelled part: F14b (C09_decimal_nan_refuted). *)
+   Property theorems only; proofs are in Literal/{Proofs,Token,Decimal,Tie,BinaryProofs,TemporalProofs}.v.
+   MODELLED AND PROVED: the 13 integer datatypes, boolean, decimal, plain / xsd:string / normalizedString / token,
+   python int / bool / Decimal / str values, pairs (eq)              - tie C09_spec_ok_model;
+   xsd:hexBinary, xsd:base64Binary                                   - tie C09_binary_spec_ok_model;
+   xsd:date, xsd:time, xsd:dateTime on forms of the XSD shape, under the guard that python's datetime can carry
+   the value                                                         - tie C09_temporal_spec_ok_model.
+   DIFFERENTIAL TESTING ONLY (harness/c09.py suite `conformance`: rdflib against an oracle written in Python, no
+   model, no theorem; C09_conformance_glue is bookkeeping): xsd:float / xsd:double beyond the special values,
+   the three duration types, xsd:language, xsd:anyURI, rdf:XMLLiteral, python float / timedelta / Duration / bytes
+   values, gYear / gYearMonth lexicalisation, date/time forms of other ISO 8601 shapes.
+   Open findings: F14b (C09_decimal_nan_refuted), F14f (bytes, conformance), F14g (C09_temporal_outside_guard_refuted
+   and the duration part in conformance). *)
 From Coq Require Import List NArith ZArith Bool.
 Import ListNotations.
 From RV Require Import Literal.Model Literal.Token Literal.Proofs Literal.Decimal Literal.Tie.
@@ -206,12 +213,18 @@ Print Assumptions C09_eq_vs_value.
 (* ---------------- the tie ---------------- *)
 
 (* what the correspondence check evaluates on the implementation's answers is satisfied by the model on every
-   case: lexical forms of every modelled datatype, python values (wf excludes only the placeholder VOther),
-   pairs, conformance-only cases; kf = 0 excludes Decimal NaN/Infinity values (F14b) and the conformance regions
-   of F14f / F14g *)
+   MODELLED case: lexical forms of every datatype of Model.v, python values (wf excludes the placeholder VOther
+   and the conformance-only cases), pairs; kf = 0 excludes Decimal NaN/Infinity values (F14b) *)
 Theorem C09_spec_ok_model : forall c, wf c = true -> kf c = 0%N -> spec_ok c (model_obs c) = true.
 Proof. exact spec_ok_model. Qed.
 Print Assumptions C09_spec_ok_model.
+
+(* bookkeeping for the conformance-only suite (differential testing against the oracle in harness/c09.py):
+   outside the finding regions the expected flag word is 0.  No content about rdflib or XSD. *)
+Theorem C09_conformance_glue : forall fam region, kf (CConf fam region) = 0%N ->
+  spec_ok (CConf fam region) (model_obs (CConf fam region)) = true.
+Proof. exact conf_glue. Qed.
+Print Assumptions C09_conformance_glue.
 
 (* readings of the checker *)
 Theorem C09_spec_valid_form_reading : forall d l norm x n1 n2 re e same xv,
@@ -312,9 +325,9 @@ Print Assumptions C09_temporal_roundtrip.
 (* for every well-formed value whose offset XSD can express (at most 14:00): the isoformat is in the XSD lexical
    space, inside the guard, denotes exactly that value; the literal built from it is not flagged, has that value,
    and normalize() / re-reading change nothing *)
-Theorem C09_temporal_faithful_partial : temporal_faithful.
+Theorem C09_temporal_faithful : temporal_faithful.
 Proof. exact temporal_faithful_all. Qed.
-Print Assumptions C09_temporal_faithful_partial.
+Print Assumptions C09_temporal_faithful.
 
 (* normalize() twice = once for every form of the shape *)
 Theorem C09_temporal_normalize_idempotent : forall d l norm,
@@ -322,12 +335,25 @@ Theorem C09_temporal_normalize_idempotent : forall d l norm,
 Proof. exact tnormalize_idem. Qed.
 Print Assumptions C09_temporal_normalize_idempotent.
 
-(* the tie for the temporal suite, PARTIAL: python values and lexical forms that are the isoformat of a well-formed
-   value.  Missing: the other valid forms inside the guard (Z, leading/trailing fraction zeros, -00:00 ...) - for
-   them "valid and in_guard => read with the XSD value" is checked by the run (bit 8 of every case), not proved *)
-Theorem C09_temporal_spec_ok_model_partial : forall c, twf_core c = true -> tspec_ok c (tmodel_obs c) = true.
-Proof. exact tspec_ok_model_partial. Qed.
-Print Assumptions C09_temporal_spec_ok_model_partial.
+(* every form of the XSD lexical space inside the guard (python's datetime can carry the value: year 1..9999,
+   hour < 24, at most six significant fraction digits, no zone on a date) is read with exactly the XSD value -
+   canonical or not: Z, -00:00, short or zero-padded fractions ... *)
+Theorem C09_temporal_valid_forms_read : forall d l xv, xsd_tvalue d l = Some xv -> in_guard xv = true ->
+  exists v, py_parse d l = Some v /\ tdenotes v xv = true /\ tval_wf v = true /\ tdt_of v = d.
+Proof. exact valid_guard_parse. Qed.
+Print Assumptions C09_temporal_valid_forms_read.
+
+(* construction-time normalisation is idempotent for every form of the shape, valid or not *)
+Theorem C09_temporal_construct_idempotent : forall d l,
+  t_lex (tconstruct d (t_lex (tconstruct d l true)) true) = t_lex (tconstruct d l true).
+Proof. exact tconstruct_idem. Qed.
+Print Assumptions C09_temporal_construct_idempotent.
+
+(* the tie for the temporal suite: every lexical form of the shape (valid in the guard: faithful; anything else:
+   the universal clauses) and every well-formed python value; tkf <> 0 exactly on valid forms outside the guard (F14g) *)
+Theorem C09_temporal_spec_ok_model : forall c, twf c = true -> tkf c = 0%N -> tspec_ok c (tmodel_obs c) = true.
+Proof. exact tspec_ok_model. Qed.
+Print Assumptions C09_temporal_spec_ok_model.
 
 (* F14g in the model: 24:00:00 flagged, the zone of a date lost, a 7th fraction digit dropped *)
 Theorem C09_temporal_outside_guard_refuted :
